@@ -85,7 +85,9 @@ class ODMLWriter:
             # Render the document before opening the file: a failing serialisation
             # must neither create nor truncate the target file.
             data = self.to_string(odml_document, **kwargs)
-            with open(filename, 'w') as file:
+            # JSON and YAML output is plain ASCII, RDF serialisations are UTF-8 by
+            # specification: do not depend on the locale's encoding.
+            with open(filename, 'w', encoding="utf-8") as file:
                 file.write(data)
 
     def to_string(self, odml_document, **kwargs):
